@@ -126,15 +126,15 @@ Fixpoint lookup_addr (ps : list part) (n : node) {struct ps} : res (option addr)
           match n with
           | Seq es =>
               match es with
-              | [] => Panic
+              | [] => Ok None                 (* no elements: no match (repo fix 5cf7cc6; was elems[-1], a panic) *)
               | _ =>
                   let i := List.length es - 1 in
                   match nth_error es i with
                   | Some e => do r <- lookup_addr ps' e; Ok (option_map (cons i) r)
-                  | None => Panic
+                  | None => Ok None           (* unreachable *)
                   end
               end
-          | _ => if is_null n then Panic else Err
+          | _ => if is_null n then Ok None else Err
           end
       | PSel nm v =>
           match n with
